@@ -124,42 +124,74 @@ def coq_assumptions(target, theorems):
 
 
 # ---------------------------------------------------------------- OCaml model runner
+def extract_units():
+    """coq/extract.d/*.ex -> {unit: (requires, names, glue files)}.  Lines: a Require, `NAMES a b c`, optional `UNIT u`
+    (own extraction file model_u.ml: keeps unrelated models from clashing on constructor/function names) and
+    `GLUE x.ml y.ml` (the OCaml glue files compiled against that unit)."""
+    units = {}
+    for f in sorted(glob.glob(COQ + '/extract.d/*.ex')):
+        reqs, names, glue, unit = [], [], [], 'model'
+        for ln in open(f).read().splitlines():
+            ln = ln.strip()
+            if ln.startswith('NAMES'):
+                names += ln.split()[1:]
+            elif ln.startswith('UNIT'):
+                unit = 'model_' + ln.split()[1]
+            elif ln.startswith('GLUE'):
+                glue += ln.split()[1:]
+            elif ln and not ln.startswith('(*'):
+                reqs.append(ln)
+        u = units.setdefault(unit, ([], [], []))
+        u[0].extend(reqs); u[1].extend(names); u[2].extend(glue)
+    return units
+
+
 def build_ocaml():
     d = BUILD + '/ocaml'
     os.makedirs(d, exist_ok=True)
     srcs = sorted(glob.glob(V + '/ocaml/*.ml'))
     vos = glob.glob(COQ + '/theories/**/*.vo', recursive=True)
-    newest = max([os.path.getmtime(x) for x in srcs + vos + glob.glob(COQ + '/extract.d/*.ex')])
+    newest = max([os.path.getmtime(x) for x in srcs + vos + glob.glob(COQ + '/extract.d/*.ex') + [V + '/py/vlib.py']])
     exe = d + '/modelrun'
     if os.path.exists(exe) and os.path.getmtime(exe) >= newest:
         return True, 'up to date', 0.0
     t0 = time.time()
-    write_extract(d + '/Extract.v')
-    rc, out, _ = sh('coqc -R %s/theories LV Extract.v' % COQ, cwd=d, timeout=600)
-    if rc != 0:
-        return False, out, time.time() - t0
-    for s in srcs:
-        shutil.copy(s, d)
-    first = ['sexp.ml', 'conv.ml', 'histrun.ml']   # histrun.ml holds the shared ledger printers (state_sx, result_sx, op_of): linked before the other glue files
-    order = first + [os.path.basename(s) for s in srcs if os.path.basename(s) not in first + ['modelrun.ml']] + ['modelrun.ml']
-    rc, out2, _ = sh('ocamlfind ocamlopt -O2 -package zarith -linkpkg -w -a model.mli model.ml %s -o modelrun 2>&1 || ocamlfind ocamlopt -package zarith -linkpkg -w -a model.mli model.ml %s -o modelrun' % (' '.join(order), ' '.join(order)), cwd=d, timeout=900)
+    units = extract_units()
+    out = ''
+    for u, (reqs, names, glue) in units.items():
+        open(d + '/Extract_%s.v' % u, 'w').write(
+            '(* generated from coq/extract.d; directives used: ExtrOcamlBasic (bool, option, unit, prod, list, sumbool, sumor),\n'
+            '   ExtrOcamlString (ascii -> char, string -> char list). Z, N, positive, Q stay Coq datatypes. *)\n'
+            'Require Extraction.\nRequire Import ExtrOcamlBasic ExtrOcamlString.\n' + '\n'.join(reqs) +
+            '\nExtraction Language OCaml.\nExtraction "%s.ml" %s.\n' % (u, ' '.join(names)))
+        rc, o, _ = sh('coqc -R %s/theories LV Extract_%s.v' % (COQ, u), cwd=d, timeout=600)
+        out += o
+        if rc != 0:
+            return False, out, time.time() - t0
+    base = {os.path.basename(s): open(s).read() for s in srcs}
+    owned = {g: u for u, (_, _, glue) in units.items() for g in glue}
+    order = ['sexp.ml', 'reg.ml']
+    for u in sorted(units, key=lambda x: (x != 'model', x)):
+        mod = u.capitalize()                       # Model / Model_ns
+        conv = 'conv.ml' if u == 'model' else 'conv_%s.ml' % u[6:]
+        cmod = conv[:-3].capitalize()
+        def subst(txt):
+            if u == 'model':
+                return txt
+            txt = re.sub(r'\bModel\b', mod, txt)
+            return re.sub(r'\bConv\b', cmod, txt)
+        open(d + '/' + conv, 'w').write(subst(base['conv.ml']))
+        files = [g for g in base if g not in ('sexp.ml', 'reg.ml', 'conv.ml', 'modelrun.ml') and owned.get(g, 'model') == u]
+        # within a unit: histrun first (others reuse its printers), then alphabetical
+        files.sort(key=lambda g: (g != 'histrun.ml', g))
+        for g in files:
+            open(d + '/' + g, 'w').write(subst(base[g]))
+        order += [u + '.mli', u + '.ml', conv] + files
+    for g in ('sexp.ml', 'reg.ml', 'modelrun.ml'):
+        open(d + '/' + g, 'w').write(base[g])
+    order.append('modelrun.ml')
+    rc, out2, _ = sh('ocamlfind ocamlopt -O2 -package zarith -linkpkg -w -a %s -o modelrun 2>&1 || ocamlfind ocamlopt -package zarith -linkpkg -w -a %s -o modelrun' % (' '.join(order), ' '.join(order)), cwd=d, timeout=900)
     return rc == 0, out + out2, time.time() - t0
-
-
-def write_extract(path):
-    """Extract.v is generated from coq/extract.d/*.ex (line 1: the Require, line 2: NAMES a b c)."""
-    reqs, names = [], []
-    for f in sorted(glob.glob(COQ + '/extract.d/*.ex')):
-        for ln in open(f).read().splitlines():
-            ln = ln.strip()
-            if ln.startswith('NAMES'):
-                names += ln.split()[1:]
-            elif ln and not ln.startswith('(*'):
-                reqs.append(ln)
-    open(path, 'w').write('(* generated from coq/extract.d; directives used: ExtrOcamlBasic (bool, option, unit, prod, list, sumbool, sumor),\n'
-                          '   ExtrOcamlString (ascii -> char, string -> char list). Z, N, positive, Q stay Coq datatypes. *)\n'
-                          'Require Extraction.\nRequire Import ExtrOcamlBasic ExtrOcamlString.\n' + '\n'.join(reqs) +
-                          '\nExtraction Language OCaml.\nExtraction "model.ml" ' + ' '.join(names) + '.\n')
 
 
 def run_model(cmd, cases, outfile, timeout=1800):
